@@ -1661,11 +1661,18 @@ def _analyse_own(chk):
         tu_s = cfacts.TU(c.tree, c06.C_SPH)
         tc.load_enums(tu_s, c.tree)
         c06.rule_sph_harmonic(c, {c06.C_SPH: tu_s})
+        c06.rule_sph_bounds(c, {c06.C_SPH: tu_s})
+        both = dict(tus)
+        both[c06.C_SPH] = tu_s
+        c06.rule_table_extent(c, both)
 
     chk.guard(_sph)
     chk.rule("sph-harmonic", "every Y_lm generated by recursive_sph_harm + setup_sph_harm_buffer is a harmonic polynomial of "
                              "degree l (shared with C06)")
     chk.floor("sph-harmonic", 25, "49 values for lmax = 6")
+    chk.rule("sph-bounds", "generators store inside the buffers of the smallest set-ups (shared with C06)")
+    chk.rule("table-extent", "file-scope constant tables are indexed below their extent (shared with C06)")
+    chk.floor("sph-bounds", 3, "2 generators x 3 configurations")
     chk.floor("inverse-pair", 3, "spline scale, derivative scale, clip bound, etb and zexp ladders (5 today)")
     chk.floor("chain-j", 8, "4 j specs + 4 k specs (alias) x 2 layouts, minus nothing; 16 today")
     chk.floor("chain-j-twin", 2, "4 case values")
@@ -1768,6 +1775,9 @@ def mutants(tree):
                "+ 0.5 * _get_int_0(n, prod, asum)", expect="symmetric-operand"),
         Mutant("coul matrix built from the row vector only", PLANS, "coul = 4 * np.sqrt(2 / np.pi) * prod**0.75 / sum\n",
                "coul = 4 * np.sqrt(2 / np.pi) * prod**0.75 / (2 * self.alphas)\n", expect="symmetric-operand"),
+        Mutant("generator stores the l=1 entries without checking lmax", cfacts.LIB + "/mod_cider/sph_harm.c",
+               "    if (buf.lmax < 1) {\n        return; // nlm == 1: there is no room for the l=1 entries\n    }\n    ylm[1 * lp1 + 0]",
+               "    ylm[1 * lp1 + 0]", expect="sph-bounds"),
         Mutant("knot-index scaling off by one", PLANS, "di[:] *= (self._spline_size - 1) / (self.nalpha - 1)",
                "di[:] *= self._spline_size / self.nalpha", expect="inverse-pair"),
         Mutant("knot layout off by one", PLANS, "interp_indexes * (self.nalpha - 1) / (self._spline_size - 1)",
